@@ -5,6 +5,7 @@ import RgVerif.Lemmas.GlobDocSimple
 import RgVerif.Lemmas.GlobDocStar
 import RgVerif.Lemmas.GlobDocClass
 import RgVerif.Lemmas.GlobDocAlt
+import RgVerif.Lemmas.GlobDocStarP
 /-
 C12 — a glob set answers exactly like its member globs; a glob matches exactly when the documented
 syntax says so.  Only the deciding statements live here; proofs are in `Lemmas/Glob*.lean`.
@@ -151,13 +152,33 @@ theorem tokens_mean_documented (o : Opts) (ts : List Tok) (hts : ∀ t ∈ ts, s
       GlobDoc.atomsMatch (docOpts o) (ts.flatMap trAtoms) p :=
   tokensK_eq_atomsMatch_star o ts hts p
 
+/-- **`into` is cleared before matching begins**: whatever the reused buffer held, `matches_candidate_into`
+leaves exactly the answer of a fresh `matches_candidate` — also for a set without globs. -/
+theorem C12_into_clears (s : GlobSet) (c : Candidate) (into : List Nat) :
+    s.matchesCandidateInto c into = s.matchesCandidate c := by
+  unfold GlobSet.matchesCandidateInto GlobSet.matchesCandidate clearBuf
+  simp
+
+/-- **API history**: along any sequence of `matches_into` calls sharing one buffer (any sets, empty ones
+included, any paths, any initial buffer content) every call returns what `matches` returns for that set and
+path alone — no state leaks from one call to the next. -/
+theorem C12_into_history (steps : List (List Glob × Bytes)) (buf : List Nat) :
+    intoHistory steps buf = steps.map fun sp => setMatches sp.1 sp.2 := by
+  induction steps generalizing buf with
+  | nil => rfl
+  | cons sp rest ih =>
+    obtain ⟨gs, p⟩ := sp
+    simp only [intoHistory, List.map_cons, C12_into_clears, ih]
+    rfl
+
 /-- the part of the documented grammar for which `C12_doc_partial` is proved: literals, `?`, single `*`, `\x`
 escapes (or a literal backslash), and `**` as a whole component in its three positions — i.e. globs
 [`**/`] S₀ (`/**/` Sᵢ)* [`/**`] with wildcard segments Sᵢ, and the glob `**` —, or globs made of wildcard runs and
 bracket classes (`[ab]`, `[a-c]`, `[!…]`, `[^…]`, `]` first, `-` first or last), or globs with one level of
-alternates `{a,b}` whose branches and surroundings are wildcard runs -/
+alternates `{a,b}` whose branches and surroundings are wildcard runs, or `**` globs whose segments contain
+bracket classes (`**/*.[ch]`, `src/**/[a-z]*.rs`) -/
 def docGuard (o : Opts) (g : List Nat) : Bool :=
-  simpleGlob o.be g || okStarGlob o.be g || okClassGlob o.be g || okAltGlob o g
+  simpleGlob o.be g || okStarGlob o.be g || okClassGlob o.be g || okAltGlob o g || okStarGlobP o.be g
 
 /-- **C12_doc** (partial, guard `docGuard`; all four option flags): the glob is accepted, lies in the documented
 grammar, and its regex matches a path exactly when the documented syntax says so — `?` is one byte and `*` any
@@ -174,10 +195,12 @@ theorem C12_doc_partial (o : Opts) (g : List Nat) (hg : docGuard o g = true) (p 
   rcases Bool.or_eq_true_iff.mp hg with h | h
   · rcases Bool.or_eq_true_iff.mp h with h | h
     · rcases Bool.or_eq_true_iff.mp h with h | h
-      · exact doc_simple o g h p
-      · exact doc_okStarGlob o g h p
-    · exact doc_okClassGlob o g h p
-  · exact doc_okAltGlob o g h p
+      · rcases Bool.or_eq_true_iff.mp h with h | h
+        · exact doc_simple o g h p
+        · exact doc_okStarGlob o g h p
+      · exact doc_okClassGlob o g h p
+    · exact doc_okAltGlob o g h p
+  · exact doc_okStarGlobP o g h p
 
 /-- the guard holds for non-trivial globs: `a*.?\*b`; without escapes `\a/?*`; `**/a*/**/b?/**`; `**`; `/**` -/
 example : docGuard ⟨false, false, true, false⟩ [97, 42, 46, 63, 92, 42, 98] = true ∧
@@ -190,7 +213,9 @@ example : docGuard ⟨false, false, true, false⟩ [97, 42, 46, 63, 92, 42, 98] 
     -- classes: `a[!b-d]*.[ch]`
     docGuard ⟨false, true, true, false⟩ [97, 91, 33, 98, 45, 100, 93, 42, 46, 91, 99, 104, 93] = true ∧
     -- alternates: `*.{c,h}`
-    docGuard ⟨false, false, true, false⟩ [42, 46, 123, 99, 44, 104, 125] = true := by
+    docGuard ⟨false, false, true, false⟩ [42, 46, 123, 99, 44, 104, 125] = true ∧
+    -- `**` with classes: `**/*.[ch]`
+    docGuard ⟨false, true, true, false⟩ [42, 42, 47, 42, 46, 91, 99, 104, 93] = true := by
   decide
 
 end RgVerif.Props.C12
